@@ -10,11 +10,12 @@ import (
 // Event is one entry of an observed history. Harness actions are logged BEFORE they are performed,
 // observations AFTER they were made (see lean/FwdVerif/Driver/C11.lean).
 type Event struct {
-	Op   string        `json:"op"`          // c r h p s g a e o R t x L SC SR CC CR D X XR K
-	K    int           `json:"k,omitempty"` // connection
-	A    bool          `json:"a,omitempty"` // c: tls   s: CONNECT   R: Connection: close   SR: nil
-	B    bool          `json:"b,omitempty"` // s: request carries Connection: close
+	Op   string        `json:"op"`          // c r h p s g a e o R t x L SC SR CC CR D Z X XR K NL SG
+	K    int           `json:"k,omitempty"` // connection; SC SR D Z: number of the Shutdown call; CC CR: number of the Close call
+	A    bool          `json:"a,omitempty"` // c: tls   s: CONNECT   R: Connection: close   SC: the context has no deadline
+	B    bool          `json:"b,omitempty"` // s: request carries Connection: close   SC: the context is cancelled by somebody
 	C    bool          `json:"c,omitempty"` // s: the origin answers by itself (rig a CONNECT target)
+	R    string        `json:"r,omitempty"` // SR: "n" nil | "d" context.DeadlineExceeded | "c" context.Canceled
 	T    time.Duration `json:"t_us"`        // since the start of the case (diagnostic; only the order is compared)
 	skip bool
 }
@@ -33,9 +34,11 @@ func (e *Event) wire() string {
 		return fmt.Sprintf("s:%d:%s:%s:%s", e.K, b(e.A), b(e.B), b(e.C))
 	case "R":
 		return fmt.Sprintf("R:%d:%s", e.K, b(e.A))
+	case "SC":
+		return fmt.Sprintf("SC:%d:%s:%s", e.K, b(e.A), b(e.B))
 	case "SR":
-		return "SR:" + b(e.A)
-	case "r", "h", "p", "g", "a", "e", "o", "x", "t":
+		return fmt.Sprintf("SR:%d:%s", e.K, e.R)
+	case "r", "h", "p", "g", "a", "e", "o", "x", "t", "CC", "CR", "D", "Z":
 		return fmt.Sprintf("%s:%d", e.Op, e.K)
 	default:
 		return e.Op
@@ -100,13 +103,23 @@ func (l *Log) Snapshot() []*Event {
 	return out
 }
 
-// withDeadline inserts the D event (the context may expire from here on) before the first event
-// recorded at or after call+timeout. A Go timer never fires early, so everything recorded before
-// that instant happened before the context expired.
-func withDeadline(evs []*Event, callOp string, timeout time.Duration) []*Event {
+// AddRet records the return of call k of Shutdown: res is "n" (nil), "d" (DeadlineExceeded) or "c" (Canceled).
+func (l *Log) AddRet(k int, res string) *Event {
+	e := &Event{Op: "SR", K: k, R: res}
+	l.mu.Lock()
+	e.T = time.Since(l.t0)
+	l.evs = append(l.evs, e)
+	l.mu.Unlock()
+	return e
+}
+
+// withDeadline inserts the D event of call k (its context may expire from here on) before the first
+// event recorded at or after call+timeout, call being the first callOp event with that number. A Go timer
+// never fires early, so everything recorded before that instant happened before the context expired.
+func withDeadline(evs []*Event, callOp string, k int, timeout time.Duration) []*Event {
 	var call *Event
 	for _, e := range evs {
-		if e.Op == callOp {
+		if e.Op == callOp && (e.K == k || callOp == "X") {
 			call = e
 			break
 		}
@@ -119,7 +132,7 @@ func withDeadline(evs []*Event, callOp string, timeout time.Duration) []*Event {
 	done := false
 	for _, e := range evs {
 		if !done && e.T >= at {
-			out = append(out, &Event{Op: "D", T: at})
+			out = append(out, &Event{Op: "D", K: k, T: at})
 			done = true
 		}
 		out = append(out, e)
